@@ -119,8 +119,6 @@ def run(name, checks, tier="quick", inplace=False):
             sh("git -C /repo worktree remove --force %s" % target)
     # evidence/replay files written while a mutant was applied are not evidence of the real tree
     sh("git -C %s checkout -- evidence" % V)
-    shutil.rmtree(os.path.join(V, "replays"), ignore_errors=True)
-    os.makedirs(os.path.join(V, "replays"), exist_ok=True)
     mf = os.path.join(V, "seeded", name, "meta.json")
     meta = json.load(open(mf))
     meta.setdefault("detection", {}).update({"%s/%s" % (c, tier): v for c, v in results.items()})
